@@ -20,7 +20,7 @@ open Gen
 /-- The structural facts the model relies on, as extracted from the source of this run: the guards of
 `buildCommandIsResultValid` in order (kind test first, so that the output infos of a non-command value are never
 read), the order of the decisions in `inputsAvailable`, and that input rules are registered under the key they
-are requested and stored under (F30: otherwise no input result is ever found in the database). -/
+are requested and stored under (F36: otherwise no input result is ever found in the database). -/
 theorem C18_tables :
     validGuards = [.notSuccessful, .hashDiffersUnlessGenerator, .outputMissingUnlessAlias, .outputInfoDiffers] ∧
     decisionOrder = [.cancelled, .phony, .updateIfNewer, .simulate, .skip, .run] ∧
@@ -252,7 +252,7 @@ example : (accumulate { hash := 1 } ⟨[.existing ⟨1, 2, 3, 4, ⟨5, 0⟩⟩],
 /-- "a failing command stops its dependents": if an explicit or implicit input delivered a failed, skipped or
 missing-input value, the command is not executed; it completes with a Skipped value — except that the
 update-if-newer test, which comes first in the source, may still declare it up to date (possible only when the
-build was not stopped, i.e. `-k` ≠ 1); a phony command propagates the skip (F32). -/
+build was not stopped, i.e. `-k` ≠ 1); a phony command propagates the skip (F38). -/
 theorem C18_failed_input_skips (ctx : Ctx) (c : Cmd) (ins : Inputs BuildValue) (prior : Option BuildValue)
     (outs : List FInfo) (v : BuildValue) (hv : v ∈ ins.explicit ∨ v ∈ ins.implicit)
     (hk : v.kind = .failedCommand ∨ v.kind = .skippedCommand ∨ v.kind = .missingInput) :
@@ -358,6 +358,16 @@ theorem C18_shortcut_outputs_not_older (ctx : Ctx) (c : Cmd) (ins : Inputs Build
     simp only [hst, ↓reduceIte, refuseCmpStrict, Cmp.eval] at hoo
     have h1 := TS.lt_of_not_le hoo.2
     rw [TS.le_iff] at hge; rw [TS.lt_iff] at h1 ⊢; omega
+
+/-- the comparison operators, pinned both ways: without `--strict` an output whose mtime EQUALS the newest input's is
+up to date (Ninja compatibility, see the comment at l.1110-1121); with `--strict` it is not. -/
+theorem C18_equal_mtime (o : FInfo) (hm : o.isMissing = false) :
+    canUpdateWithResult { strict := false } o.mtime [o] = true ∧ canUpdateWithResult { strict := true } o.mtime [o] = false := by
+  have h1 : o.mtime.lt o.mtime = false := by
+    cases h : o.mtime.lt o.mtime with
+    | false => rfl
+    | true => rw [TS.lt_iff] at h; omega
+  simp [canUpdateWithResult, hm, refuseCmpNonStrict, refuseCmpStrict, Cmp.eval, h1, TS.le_refl]
 
 /-- The file-system-history hypothesis under which the shortcut is sound, stated precisely:
 (H1) `Increasing h`: every write (source edit or command output) stamps an mtime strictly greater than all
